@@ -1,62 +1,11 @@
-"""C15: attribution of failing query records to entries of known_findings.json.
+"""C15: helpers shared by the judge of `checks/c15.py`.
 
-Only F31 is a known finding now (F30, F32, F33, F34 are repaired in /repo: their recurrence is a violation; the
-functions `float_remainder` / `float_sum_check` are kept for reference, no entry of known_findings.json names them).
-
-A record is what `checks/c15.py:judge_query` produced for one (BIF text, query): it holds the input, the
-values of the Lean specification (`spec`), and what the real code answered (`code`).  Every function below
-recognises exactly one defect — by an exact structural signature of the failing answer and, where the
-signature alone would be too wide, by re-running the real code with an in-memory repair of that one defect
-and requiring that the repaired answer equals the specification.  Anything else stays a violation.
+No entry of known_findings.json belongs to C15 any more (F30-F34 were found by this check and are repaired in
+/repo), so there is no attribution function here: every disagreement between the code and the enumeration is a
+violation.  A future finding gets its `module:function(prop, record) -> str | None` in this file again.
 """
 import re
 from fractions import Fraction as Fr
-
-from .pool import run_tasks
-from .c15gen import RESERVED_SANITISED
-
-TASK = "harness.tasks.c15:run_query"
-
-
-def _fr(tagged):
-    if tagged and tagged[0] == "q":
-        return Fr(tagged[1])
-    return None
-
-
-def _spec_value(rec):
-    s = rec["spec"].get("value")
-    return None if s is None else Fr(s)
-
-
-def needed_reruns(rec):
-    """repairs whose re-run the attribution functions will ask for (lets the check batch them)"""
-    out = []
-    if rec.get("status") not in ("mismatch", "refused", "model-diff") or not rec.get("spec") or rec["spec"].get("value") is None:
-        return out
-    code = rec.get("code") or {}
-    names = code.get("names") or {}
-    sanitised = {re.sub("[^A-Za-z0-9_]+", "", k.lower()) for k in rec.get("var_names", [])} | set(names.values())
-    if sanitised & RESERVED_SANITISED:
-        out += [["names"], ["names", "remainder"]]
-    if (code.get("ran") and _float_remainders(code.get("code"))) or _sum_refusal(rec):
-        out.append(["remainder"])
-    return out
-
-
-def rerun_task(rec, repair):
-    return {"fn": TASK, "args": {"text": rec["text"], "kind": rec["kind"], "query": rec["query"],
-                                 "nmax": rec.get("nmax", 3), "repair": repair}}
-
-
-def _rerun(rec, repair):
-    key = "rerun:" + "+".join(repair)
-    if key not in rec:
-        t = {"fn": TASK, "args": {"text": rec["text"], "kind": rec["kind"], "query": rec["query"],
-                                  "nmax": rec.get("nmax", 3), "repair": repair}}
-        rec[key] = run_tasks([t], timeout=rec.get("timeout", 120), nworkers=1)[0]
-    r = rec[key]
-    return r.get("result") if r.get("status") == "ok" else None
 
 
 def moments_agree(kind, k, moment_values, spec, nmax):
@@ -70,38 +19,6 @@ def moments_agree(kind, k, moment_values, spec, nmax):
     if kind == "st" and len(mv) == 1:
         return mv[0] == [Fr(x) for x in spec["gen_count"]]
     return False
-
-
-def _rerun_moments_ok(rec, res):
-    return bool(res) and moments_agree(rec["kind"], rec.get("k"), res.get("moment_values"), rec["spec"],
-                                       rec.get("nmax", 3))
-
-
-def _answer(res, kind):
-    """the value the (re-run) code reports (the limit is taken by the code itself since repo commit cbda3aa)"""
-    if not res or not res.get("ran"):
-        return None
-    return _fr(res.get("final"))
-
-
-def _float_remainders(code_text):
-    """choices of the generated program whose omitted last probability, computed left to right in binary
-    floating point, is not the exact decimal (necessary for F33; the decisive test is the repaired re-run)"""
-    bad = []
-    for line in (code_text or "").split("\n"):
-        ps = re.findall(r"\{([^}]*)\}", line)
-        if not ps:
-            continue
-        try:
-            fl = 1.0
-            for p in ps:
-                fl -= float(p)
-            exact = Fr(1) - sum(Fr(p.strip()) for p in ps)
-            if Fr(repr(fl)) != exact:
-                bad.append(line.strip())
-        except ValueError:
-            pass
-    return bad
 
 
 def choice_literal_sums(code_text):
@@ -119,71 +36,3 @@ def choice_literal_sums(code_text):
         except ValueError:
             pass
     return out
-
-
-def _sum_refusal(rec):
-    err = (rec.get("code") or {}).get("error") or {}
-    return "add up to more than 1" in str(err.get("message", ""))
-
-
-def float_sum_check(prop, rec):
-    """F34: `_check_probabilities` (added by the repo fix d44d5a5) adds the written probabilities as doubles:
-    exact decimals that sum to at most 1 are refused when the float sum exceeds 1 (0.33+0.56+0.11).
-    Signature: the query is refused with that message, every choice of the generated program has an exact sum
-    <= 1 and some float sum is > 1; repair: with all literals converted to exact rationals first the query
-    reports the specification value."""
-    if rec["status"] != "refused" or not _sum_refusal(rec):
-        return None
-    sums = choice_literal_sums(rec["code"].get("code"))
-    if not sums or any(ex > 1 for _, ex, _ in sums) or not any(fl > 1 for _, _, fl in sums):
-        return None
-    want = _spec_value(rec)
-    if want is None:
-        return None
-    res = _rerun(rec, ["remainder"])
-    got = _answer(res, rec["kind"])
-    return True if got is not None and got == want and _rerun_moments_ok(rec, res) else None
-
-
-def float_remainder(prop, rec):
-    """F33: the omitted last probability of `x = v0 {p0} v1 {p1} … vk` is evaluated by sympify("1-p0-p1…") in
-    binary floating point before it is made rational (inputparser/structure_transformer.py:
-    _assign_categorical).  Signature: the generated program has such a choice; repair: the same query with the
-    remainder computed exactly reports the specification value (for the sampling time additionally with the
-    limit of F30 taken)."""
-    if rec["status"] not in ("mismatch", "model-diff") or not rec["code"].get("ran"):
-        return None
-    if not _float_remainders(rec["code"].get("code")):
-        return None
-    want = _spec_value(rec)
-    if want is None:
-        return None
-    res = _rerun(rec, ["remainder"])
-    got = _answer(res, rec["kind"])
-    if got is None or got != want or not _rerun_moments_ok(rec, res):
-        return None
-    return True
-
-
-def reserved_name(prop, rec):
-    """F31: a sanitised variable name is a keyword of Polar's language or a symengine constant (e, pi, oo, zoo,
-    nan, i, true, …): the generated program is refused, or evaluates to nan.  Signature: such a name is in the
-    mapping; repair: with a suffix on exactly those names the query reports the specification value."""
-    if rec["status"] not in ("mismatch", "refused"):
-        return None
-    names = rec["code"].get("names") or {}
-    sanitised = {re.sub("[^A-Za-z0-9_]+", "", k.lower()) for k in rec.get("var_names", [])} | set(names.values())
-    if not (sanitised & RESERVED_SANITISED):
-        return None
-    want = _spec_value(rec)
-    if want is None:
-        return None
-    res = _rerun(rec, ["names"])
-    got = _answer(res, rec["kind"])
-    if got is None:
-        return None
-    if got != want or not _rerun_moments_ok(rec, res):
-        # the float remainder may be present as well
-        res = _rerun(rec, ["names", "remainder"])
-        got = _answer(res, rec["kind"])
-    return True if got == want and _rerun_moments_ok(rec, res) else None
